@@ -240,10 +240,20 @@ func MutateMemo(tpl MemoTemplate) []MemoMut {
 		"deep-12000":            `{"orbiter":` + strings.Repeat("[", 12000) + strings.Repeat("]", 12000) + `}`,
 		"deep-obj-5000":         strings.Repeat(`{"orbiter":`, 5000) + "1" + strings.Repeat("}", 5000),
 		"pad-32k":               `{"orbiter":` + tpl.Spec.PayloadJSON() + strings.Repeat(" ", 32000) + `}`,
+		// characters Unicode calls white space and JSON does not: the padded text is not a JSON document
+		"pad-vt-before":    "\v" + doc,
+		"pad-ff-after":     doc + "\f",
+		"pad-nel-before":   "\u0085" + doc,
+		"pad-nbsp-before":  "\u00a0" + doc,
+		"pad-u2028-after":  doc + "\u2028",
+		"pad-u3000-both":   "\u3000" + doc + "\u3000",
+		"pad-u200a-inside": strings.Replace(doc, `{"orbiter":`, "{\u200a\"orbiter\":", 1),
+		// JSON's own white space around the object is part of the grammar
+		"pad-json-ws-both": " \t\r\n" + doc + "\n \t",
 	}
 	for _, k := range sortedKeysS(whole) {
 		mal := true
-		if k == "pad-32k" || k == "dup-root-key" || k == "dup-root-key-null" || k == "bom" {
+		if k == "pad-32k" || k == "dup-root-key" || k == "dup-root-key-null" || k == "bom" || k == "pad-json-ws-both" {
 			mal = false
 		}
 		out = append(out, MemoMut{Template: tpl.Name, Site: rootSite.Name, Kind: "doc-" + k, Memo: whole[k], Malformed: mal, Denom: tpl.Denom})
